@@ -28,6 +28,11 @@ class StreamNode(ConfigList):
     def stages(self):
         return self.builder.stages
 
+    def _get_child_kwargs(self, child=None):
+        # a stream only groups the stages of a sub-builder: it must not hand its own
+        # merge-controlling flags (e.g. delete=False) down to the documents it holds
+        return {}
+
     @namespace('ayns')
     def on_premerge_impl(self, path, into):
         self.clear()
